@@ -178,7 +178,7 @@ func (v *Verifier) evalCall(fr *Frame, st *State, x *ast.CallExpr) Val {
 			a := v.evalSpec(fr, st, x.Args[0]).(SliceVal)
 			b := v.evalSpec(fr, st, x.Args[1]).(SliceVal)
 			return Scalar{c.Not(c.Eq(a.Ref, b.Ref)), types.Typ[types.Bool]}
-		case "sent", "sentMsgs", "sentByte", "rpos", "rlen", "inByte", "atomic":
+		case "sent", "sentMsgs", "sentByte", "rpos", "rlen", "inByte", "atomic", "closedCh", "drainedCh":
 			if r, ok := v.ghostBuiltin(fr, st, id.Name, x); ok {
 				return r
 			}
@@ -698,7 +698,12 @@ func (v *Verifier) evalBuiltin(fr *Frame, st *State, name string, x *ast.CallExp
 	case "print", "println":
 		return TupleVal{}
 	case "close":
-		v.eval(fr, st, x.Args[0])
+		chv := v.eval(fr, st, x.Args[0])
+		if ov, ok := chv.(OpaqueVal); ok && v.eng.IntIdx() {
+			// ghost flag: the channel has been closed (closedCh)
+			h := v.ghostHeap(st, gChanClosed)
+			v.setGhostHeap(st, gChanClosed, c.Store(h, ov.ID, c.True()))
+		}
 		return TupleVal{}
 	}
 	panic(unsupportedf(x.Pos(), "builtin %s", name))
@@ -1198,7 +1203,7 @@ func (v *Verifier) resolveModTarget(cf *Frame, st *State, m ast.Expr, pos token.
 			var keys []string
 			switch id.Name {
 			case "chanlog":
-				keys = []string{gChanLen, gChanData, gChanMsgs}
+				keys = []string{gChanLen, gChanData, gChanMsgs, gChanClosed, gChanDrained}
 			case "stream":
 				keys = []string{gRdPos}
 			case "atomic":
